@@ -60,6 +60,7 @@ class AuthPlan(object):
         self.pubkey_delay = pubkey_delay
         self.bad_challenge_at = bad_challenge_at              # index of the challenge whose arg0 is not TOKEN
         self.strays = list(strays)                            # packets (cmd,arg0,arg1,payload) sent before the first answer
+        self.strays_where = "first"                           # "first" | "sig" (also before every answer to a signature) | "all" (... and before the answer to the public key)
         self.challenge_arg0 = challenge_arg0
         self.silent_at = silent_at                            # index of the host packet after which the device says nothing
         self.rechallenge_after_pubkey = rechallenge_after_pubkey
@@ -86,6 +87,7 @@ class SyncPlan(object):
         self.wrte_cap = None   # max WRTE payload (host's maxdata by default)
         self.hold_fail = False
         self.die_on = set()        # device paths: the sync service dies (CLSE, no reply) when a STAT/LIST/RECV request names one of them
+        self.fail_surplus = b""    # bytes the device sends right behind a FAIL record of a push (the FAIL again, a stray tail): nobody has to read them
         self.abort_on_fail = False # after a FAIL the sync service closes the stream at once (CLSE right behind the FAIL, later WRTEs are not acknowledged): older adbd
         self.list_trailer = {}     # path -> bytes appended after the DONE record of a listing
         self.reply_first = False   # the OKAY that acknowledges a request WRTE is sent only after all reply data that request triggered (legal; needs early_reply)
@@ -310,7 +312,7 @@ class SyncService(object):
             self.stream.data.append(Item("CLSE", b"", min_okays=n if self.plan.early_reply else n + 1))
             self.stream.aborted = True
             return
-        self._reply(wire.sync_fail(reason), n, hold=self.plan.hold_fail)
+        self._reply(wire.sync_fail(reason) + self.plan.fail_surplus, n, hold=self.plan.hold_fail)
         self.state = "drain"
 
 
@@ -362,6 +364,7 @@ class SimDevice(object):
         self.on_host_packet = None  # optional callback(pkt)
         self.before_emit = None   # optional callback(pkt) -> may mutate bytes: returns replacement bytes or None
         self._remote_counter = 0
+        self.exclusive_sync = False   # one FileSync stream at a time: opening a second one kills the first (FAIL + CLSE, unsolicited)
         self.host_packets_seen = 0
         self.new_connection()
 
@@ -429,6 +432,9 @@ class SimDevice(object):
             if pkt.arg0 == wire.AUTH_SIGNATURE:
                 ok = bool(self.auth.verify(self.token, pkt.payload))
                 self.auth_log.append(("host_sig", self.token, pkt.payload, ok))
+                if self.auth.strays_where in ("sig", "all"):
+                    for s_ in self.auth.strays:
+                        self.conn.append(Item(s_[0], s_[3], arg0=s_[1], arg1=s_[2]))
                 if ok:
                     self._send_cnxn()
                 else:
@@ -436,6 +442,9 @@ class SimDevice(object):
             elif pkt.arg0 == wire.AUTH_RSAPUBLICKEY:
                 self.pubkey = pkt.payload
                 self.auth_log.append(("host_pubkey", pkt.payload))
+                if self.auth.strays_where == "all":
+                    for s_ in self.auth.strays:
+                        self.conn.append(Item(s_[0], s_[3], arg0=s_[1], arg1=s_[2]))
                 for _ in range(self.auth.rechallenge_after_pubkey):
                     self.token = bytes(self.rng.getrandbits(8) for _ in range(20))
                     self.auth_log.append(("dev_rechallenge", self.token))
@@ -533,6 +542,15 @@ class SimDevice(object):
         st.ctrl.append(Item("OKAY"))
         service, _, arg = dest.partition(b":")
         if service == b"sync":
+            if self.exclusive_sync:
+                # a device that serves one FileSync stream at a time: the older stream is told so (FAIL) and closed at once; nothing that arrives on it later is acknowledged
+                for old_ in self.streams.values():
+                    if old_ is not st and old_.dest == b"sync:" and not old_.dead and not old_.dev_closed and isinstance(old_.service, SyncService) and not old_.service.closed:
+                        old_.service.closed = True
+                        old_.aborted = True
+                        old_.data.clear()
+                        old_.data.append(Item("WRTE", wire.sync_fail(b"sync: one transfer at a time"), min_okays=1, tag="abort"))
+                        old_.data.append(Item("CLSE", b"", min_okays=1, tag="abort"))
             st.service = SyncService(self, st, self.sync_plan)
         elif service == b"reboot":
             st.service = ScriptService(self, st, [], close=False)
@@ -568,7 +586,7 @@ class SimDevice(object):
                 svc = st.service
                 if not (st.ctrl[0].cmd == "OKAY" and st.data and st.data[0].cmd == "WRTE" and isinstance(svc, SyncService) and svc.plan.reply_first and svc.plan.early_reply):
                     out.append((st.ctrl, st))
-            if st.data and (len(st.written) - st.acked < self.window or (self.early_close and st.data[0].cmd == "CLSE")):
+            if st.data and (len(st.written) - st.acked < self.window or ((self.early_close or st.data[0].tag == "abort") and st.data[0].cmd == "CLSE")):
                 it = st.data[0]
                 if st.okays_emitted >= it.min_okays and not it.hold:
                     if self.wrte_delay and it.cmd == "WRTE":
